@@ -55,7 +55,7 @@ Qed.
 Lemma Once_reg : forall s a, Once s -> Once (do_reg false s a).
 Proof.
   intros s a H. pose proof (WF_reg s a (once_wf _ H)) as Hwf'.
-  destruct a as [d fl cb|fl cb|k x fl cb|id|]; cbn [do_reg] in *; try exact H.
+  destruct a as [d fl cb|fl cb|k x fl cb|id| |]; cbn [do_reg] in *; try exact H.
   - destruct H as [Hwf Hl Hs]. constructor; [exact Hwf'| |].
     + intros e He. cbn [log set_next set_timers next_id] in *. specialize (Hl e He). lia.
     + intros i. specialize (Hs i). unfold cnt_all in *.
@@ -83,6 +83,7 @@ Proof.
       pose proof (wf_uniq _ Hwf' (next_id s)) as U; unfold cnt_all in U;
       cbn [timers run_timers laters run_laters ios sigs procs set_next set_ios set_sigs set_procs] in U;
       rewrite cnt_insert_watch in U; unfold hit in U; cbn [w_id] in U; rewrite Z.eqb_refl in U; lia.
+  - destruct H as [Hwf Hl Hs]. constructor; [exact Hwf'|exact Hl|exact Hs].
 Qed.
 
 Lemma Once_regs : forall l s, Once s -> Once (do_regs false s l).
@@ -130,7 +131,7 @@ Qed.
 
 Lemma Once_action : forall s a, Once s -> Once (do_action false uenv s a).
 Proof.
-  intros s a H. destruct a as [d fl cb|fl cb|k x fl cb|id|]; cbn [do_action];
+  intros s a H. destruct a as [d fl cb|fl cb|k x fl cb|id| |]; cbn [do_action];
     try (apply Once_reg; exact H).
   apply Once_cancel. exact H.
 Qed.
@@ -343,7 +344,7 @@ Qed.
 
 Lemma action_run_subseq : forall s a, subseq (run_timers (do_action false uenv s a)) (run_timers s).
 Proof.
-  intros s a. destruct a as [d fl cb|fl cb|k x fl cb|id|]; cbn [do_action]; try apply subseq_refl.
+  intros s a. destruct a as [d fl cb|fl cb|k x fl cb|id| |]; cbn [do_action]; try apply subseq_refl.
   - destruct (reg_fields false s (AWatch k x fl cb)) as [A1 _]. rewrite A1. apply subseq_refl.
   - apply cancel_subseq.
 Qed.
@@ -356,7 +357,7 @@ Qed.
 
 Lemma KS_reg : forall s a, Below s -> ksorted (timers s) -> ksorted (timers (do_reg false s a)).
 Proof.
-  intros s a Hb Hs. destruct a as [d fl cb|fl cb|k x fl cb|id|]; cbn [do_reg]; try exact Hs.
+  intros s a Hb Hs. destruct a as [d fl cb|fl cb|k x fl cb|id| |]; cbn [do_reg]; try exact Hs.
   - cbn [timers set_next set_timers]. apply ksorted_timer_insert; [exact Hs|].
     destruct (Below_parts s Hb) as [B1 _]. exact B1.
   - destruct k; exact Hs.
@@ -397,7 +398,7 @@ Qed.
 
 Lemma KS_action : forall s a, WF s -> ksorted (timers s) -> ksorted (timers (do_action false uenv s a)).
 Proof.
-  intros s a H Hs. destruct a as [d fl cb|fl cb|k x fl cb|id|]; cbn [do_action];
+  intros s a H Hs. destruct a as [d fl cb|fl cb|k x fl cb|id| |]; cbn [do_action];
     try (apply KS_reg; [exact (wf_below _ H)|exact Hs]).
   apply KS_cancel; assumption.
 Qed.
